@@ -233,6 +233,9 @@ BOUND = {"Included": 0, "Excluded": 1}
 
 def check_remove(chk, cfg, b):
     paths, N = an.analyse(cfg, b)
+    # the range resolver's debug assertions (start <= end, end <= len) are preconditions of remove: registered for I-assert, so that
+    # `s <= e` turned into `s < e` (an empty range now panics) is reported
+    an.strip_assert_guards(paths)
     r = rets(paths)
     bad = [p for p in paths if p.end not in ("return", "panic")]
     if bad:
